@@ -159,9 +159,10 @@ def cleanTr (l : List Tr) : Bool := l.all fun t => !t.isExc
 /-! ### modal screens (C05) -/
 
 /-- **No exception escaped a callback**: no `ExceptionSignal` was enqueued in the whole history.  (An
-exception raised by `closed()` of a modal screen, or the `RenderUnexpectedError` raised by
-`close_screen` *after* it popped a modal screen that did not ask to be closed, skips `close_loop`: the
-nested loop stays open without its screen — the modal correspondence is lost.) -/
+exception raised by `closed()` of a modal screen skips the rest of `close_screen`, in particular
+`close_loop`: the nested loop stays open without its screen — the modal correspondence is lost.  The
+`RenderUnexpectedError` of `close_screen` no longer has that effect: `closed_from` is checked before
+anything is popped.) -/
 def NoErr (c : Cfg) : Prop := cleanTr c.tr = true
 
 instance (c : Cfg) : Decidable (NoErr c) := inferInstanceAs (Decidable (_ = _))
@@ -183,6 +184,10 @@ def InitScreenOnly (c0 : Cfg) : Prop := ∀ a, Instr.act a ∈ c0.code → a.scr
 /-- the `closed()` callbacks of the program do nothing (they run between the pop of a screen and the
 `close_loop` of its nested loop) -/
 def ClosedSilent (P : Prog) : Prop := ∀ scr n, (P.screenScript scr .closed n).acts = []
+
+/-- the `closed()` callbacks of the program call no library API — but, unlike `ClosedSilent`, they may
+raise an ordinary exception -/
+def ClosedNoApi (P : Prog) : Prop := ∀ scr n, ∀ a ∈ (P.screenScript scr .closed n).acts, a = .raiseErr
 
 /-- number of modal entries on a screen stack -/
 def modalCount (st : List Entry) : Nat := (st.filter (·.modal)).length
